@@ -421,3 +421,45 @@ def mat_set_py(config, cwd=None, py=None, entry='materialize_set'):
         return out
     finally:
         os.chdir(old)
+
+
+def _tree_hash(cwd):
+    import hashlib
+    h = {}
+    for dp, dn, fn in os.walk(cwd):
+        for f in fn:
+            full = os.path.join(dp, f)
+            try:
+                h[os.path.relpath(full, cwd)] = hashlib.sha1(open(full, 'rb').read()).hexdigest()
+            except Exception:
+                h[os.path.relpath(full, cwd)] = 'unreadable'
+    return h
+
+
+def call_sequence(items, reuse_objects=None):
+    """Several library calls in THIS process, one after the other.  items: [{'config','cwd','py'}].
+    reuse_objects: {index: earlier index} -- pass the very same Python objects as an earlier call did.
+    Returns per call: result, fingerprints of the caller's objects before / after, hashes of every file of cwd before / after."""
+    import morph_kgc
+    out, kept = [], {}
+    for i, it in enumerate(items):
+        old = os.getcwd()
+        try:
+            os.chdir(it['cwd'])
+            if reuse_objects and str(i) in reuse_objects:
+                objs = kept[int(reuse_objects[str(i)])]
+            else:
+                objs = build_python_source(it.get('py') or {})
+            kept[i] = objs
+            before, files_before = fingerprint(objs), _tree_hash(it['cwd'])
+            try:
+                res = morph_kgc.materialize_set(it['config'], objs) if objs else morph_kgc.materialize_set(it['config'])
+                r = {'lines': sorted(res, key=lambda x: str(x))}
+            except Exception as e:
+                r = _bucket(e)
+            r.update({'before': before, 'after': fingerprint(objs), 'files_changed': sorted(k for k, v in _tree_hash(it['cwd']).items() if files_before.get(k) != v),
+                      'files_removed': sorted(k for k in files_before if not os.path.exists(os.path.join(it['cwd'], k)))})
+            out.append(r)
+        finally:
+            os.chdir(old)
+    return out
